@@ -452,8 +452,22 @@ fn gen_case(rng: &mut Rng, stream: &str) -> Option<Value> {
             if ref_subst(&inst, h["value"].as_str().unwrap()) != v[1].as_str().unwrap() { return None; }
         } }
     }
+    // ---- marketing forwarding (C09 x C10): the request carries parameters of the configured marketing set; they are
+    // ignored for matching and, when passing is configured, appended to the RENDERED target with '?' or '&'
+    let mkt = unamb && rng.chance(1, 5);
+    let mkt_pass = mkt && rng.chance(3, 4);
+    let mut skipped = String::new();
+    let mut url = url;
+    if mkt {
+        skipped = match rng.below(3) { 0 => "utm_source=news".to_string(), 1 => "utm_medium=em".to_string(), _ => "utm_medium=em&utm_source=news".to_string() };
+        // the crate sorts all parameters by key; the added ones go anywhere in the received query
+        if url.contains('?') {
+            if rng.chance(1, 2) { url = format!("{}&{}", url, skipped); }
+            else { let (p, q) = url.split_once('?').unwrap(); url = format!("{}?{}&{}", p, skipped, q); }
+        } else { url = format!("{}?{}", url, skipped); }
+    }
     // ---- transformers, variables
-    let explicit_vars = rng.chance(2, 5);
+    let explicit_vars = mkt || rng.chance(2, 5);
     let with_tr = unamb;
     for p in plans.iter_mut() {
         let in_path = p.place == "path" || p.place == "query";
@@ -491,6 +505,7 @@ fn gen_case(rng: &mut Rng, stream: &str) -> Option<Value> {
     let remote: Value = if rng.chance(1, 4) { json!("192.0.2.7") } else { Value::Null };
     let mut variables_json: Vec<Value> = Vec::new();
     let mut vars: Vec<(String, String)> = Vec::new();
+    let mut mkt_uri_var: Option<String> = None;
     if explicit_vars && unamb {
         // as the redirection.io UI does: one variable per marker, same name; then a few more
         for (n, v) in &input {
@@ -523,6 +538,14 @@ fn gen_case(rng: &mut Rng, stream: &str) -> Option<Value> {
             variables_json.push(json!({"name": n, "type": ty, "transformers": ts}));
             vars.push((n, ref_chain(&ts, &base).ok()?));
         }
+        // under marketing forwarding: a variable holding the received URL, so that a '?' can reach the target by
+        // substitution only
+        if mkt && !pool.is_empty() && rng.chance(2, 3) {
+            let n = pool.remove(rng.below(pool.len())).to_string();
+            variables_json.push(json!({"name": n, "type": "request_path", "transformers": []}));
+            vars.push((n.clone(), url.clone()));
+            mkt_uri_var = Some(n);
+        }
         // rule order is the order of the sequential replacement among names of equal length
         let k = variables_json.len();
         let mut idx: Vec<usize> = (0..k).collect();
@@ -532,7 +555,10 @@ fn gen_case(rng: &mut Rng, stream: &str) -> Option<Value> {
     } else { vars = input.clone(); }
 
     // ---- target, filters
-    let target: Value = match rng.below(12) { 0 => Value::Null, 1 => json!(""), _ => { let lead = *rng.pick(&["/t/", "https://example.org/", "/", "/r?u="]); json!(gen_text(rng, &vars, lead)) } };
+    let target: Value = match (&mkt_uri_var, rng.below(12)) {
+        (Some(n), 2..=8) => json!(format!("{}@{}", *rng.pick(&["/t", "https://example.org", "/moved/x"]), n)),
+        (_, 0) => Value::Null, (_, 1) => json!(""),
+        _ => { let lead = *rng.pick(&["/t/", "https://example.org/", "/", "/r?u="]); json!(gen_text(rng, &vars, lead)) } };
     let nhf = match rng.below(4) { 0 | 1 => 0, 2 => 1, _ => 2 };
     let header_filters: Vec<Value> = (0..nhf).map(|k| { let lead = *rng.pick(&["", "v=", "k:"]); let act = *rng.pick(&["add", "override", "replace"]); json!({"action": act, "header": format!("X-Out{}", k), "value": gen_text(rng, &vars, lead)}) }).collect();
     let nbf = match rng.below(4) { 0 | 1 => 0, 2 => 1, _ => 2 };
@@ -546,8 +572,9 @@ fn gen_case(rng: &mut Rng, stream: &str) -> Option<Value> {
 
     // ---- expectations
     let sub = |t: &str| ref_subst(&vars, t);
-    let exp_location: Value = match target.as_str() { Some(t) if !t.is_empty() => json!(sub(t)), _ => Value::Null };
-    let exp_target: Value = match target.as_str() { Some(t) => json!(sub(t)), None => Value::Null };
+    let fwd = |v: String| if mkt_pass && !skipped.is_empty() { let sep = if v.contains('?') { '&' } else { '?' }; format!("{}{}{}", v, sep, skipped) } else { v };
+    let exp_location: Value = match target.as_str() { Some(t) if !t.is_empty() => json!(fwd(sub(t))), _ => Value::Null };
+    let exp_target: Value = match target.as_str() { Some(t) => json!(fwd(sub(t))), None => Value::Null };
     let mut exp_h: Vec<Value> = Vec::new();
     if !exp_location.is_null() { exp_h.push(exp_location.clone()); }
     for f in &header_filters { exp_h.push(json!(sub(f["value"].as_str().unwrap()))); }
@@ -566,7 +593,7 @@ fn gen_case(rng: &mut Rng, stream: &str) -> Option<Value> {
     }
     let pairs = |l: &[(String, String)]| l.iter().map(|(n, v)| json!([n, v])).collect::<Vec<_>>();
     Some(json!({
-        "stream": stream, "cfg": {"ihc": ihc, "ihdc": false, "ipqc": ipqc},
+        "stream": stream, "cfg": {"ihc": ihc, "ihdc": false, "ipqc": ipqc, "mk": if mkt { json!(["utm_source", "utm_medium"]) } else { json!([]) }, "pass": mkt_pass},
         "rule": {"path": path_t, "query": query_t, "host": host_t, "headers": rule_headers, "markers": markers_json, "variables": variables_json,
                  "target": target, "header_filters": header_filters, "body_filters": body_filters},
         "request": {"url": url, "host": host_r, "scheme": scheme, "method": method, "headers": req_headers, "remote": remote},
@@ -657,8 +684,9 @@ pub fn run_case(id: usize, input: &Value) {
     let flag = |n: &str| c[n].as_bool().unwrap_or(false);
     let config = RouterConfig {
         ignore_host_case: flag("ihc"), ignore_header_case: flag("ihdc"), ignore_path_and_query_case: flag("ipqc"),
-        ignore_marketing_query_params: true, marketing_query_params: HashSet::new(),
-        pass_marketing_query_params_to_target: false, always_match_any_host: false,
+        ignore_marketing_query_params: true,
+        marketing_query_params: c["mk"].as_array().map(|a| a.iter().filter_map(|x| x.as_str().map(|s| s.to_string())).collect()).unwrap_or_default(),
+        pass_marketing_query_params_to_target: flag("pass"), always_match_any_host: false,
     };
     let stream = input["stream"].as_str().unwrap_or("witness").to_string();
     let rule_in = input["rule"].clone();
@@ -747,10 +775,10 @@ pub fn run_case(id: usize, input: &Value) {
         cq_list(r["variables"].as_array().map(|a| a.as_slice()).unwrap_or(&[]), |v| format!("mk_var {} {} {}", cq_str(v["name"].as_str().unwrap_or("")), cq_vkind(&v["type"]), cq_transformers(&v["transformers"]))),
         cq_ostr(&r["target"]), cq_list(r["header_filters"].as_array().map(|a| a.as_slice()).unwrap_or(&[]), |f| cq_str(f["value"].as_str().unwrap_or(""))), rule_bfs(&r["body_filters"]));
     let opt = |s: &Option<String>| match s { None => "None".to_string(), Some(x) => format!("(Some {})", cq_str(x)) };
-    let coq = format!("{{| c_stream := {}; c_cfg := mk_cfg10 {} {} {}; c_rule := {}; c_url := {}; c_host := {}; c_scheme := {}; c_method := {}; c_headers := {}; c_remote := {}; c_oracle := {}; \
+    let coq = format!("{{| c_stream := {}; c_cfg := mk_cfg10m {} {} {} {} {}; c_rule := {}; c_url := {}; c_host := {}; c_scheme := {}; c_method := {}; c_headers := {}; c_remote := {}; c_oracle := {}; \
 c_expect_match := {}; c_expect_panic := {}; c_expect_captured := {}; c_expect_variables := {}; c_expect_location := {}; c_expect_target := {}; c_expect_hvalues := {}; c_expect_bvalues := {}; c_parse_checks := {}; \
 o_route := {}; o_panic := {}; o_match := {}; o_captured := {}; o_location := {}; o_target := {}; o_hvalues := {}; o_bvalues := {} |}}",
-        match stream.as_str() { "unamb" => "SUnamb", "amb" => "SAmb", _ => "SWitness" }, cq_bool(flag("ihc")), cq_bool(flag("ihdc")), cq_bool(flag("ipqc")), cq_rule,
+        match stream.as_str() { "unamb" => "SUnamb", "amb" => "SAmb", _ => "SWitness" }, cq_bool(flag("ihc")), cq_bool(flag("ihdc")), cq_bool(flag("ipqc")), cq_strs(&c["mk"]), cq_bool(flag("pass")), cq_rule,
         cq_str(rq["url"].as_str().unwrap_or("")), cq_ostr(&rq["host"]), cq_ostr(&rq["scheme"]), cq_ostr(&rq["method"]), cq_pairs(&rq["headers"]), cq_ostr(&rq["remote"]),
         cq_list(&obs.oracle, |(k, i, o)| format!("({}, {}, {})", k, cq_str(i), cq_str(o))),
         cq_bool(e["match"].as_bool().unwrap_or(false)), cq_bool(e["panic"].as_bool().unwrap_or(false)), cq_pairs(&e["captured"]), cq_pairs(&e["variables"]),
